@@ -184,3 +184,103 @@ def shrink_case(case, is_bad, budget=60):
             else:
                 k += 1
     return cur
+
+
+# ------------------------------------------------------------------------------------------ run()-based observation
+def impl_run(case):
+    """case: {"mdl", "run": {"T","dt","dts"?, "solver", "vectorize", "outputs": dict|list, "inputs": {path: [[..]..] or [..]}, "cutoff"?, "backend"?},
+              "style", "interp", "in_place"}
+    -> {"index":[q..], "cols":[[label, [q..]], ...]} | {"error":..}.  label = str for plain columns, list for MultiIndex tuples."""
+    mdl, rc = case["mdl"], case["run"]
+    with M.Scratch():
+        with warnings.catch_warnings():
+            warnings.simplefilter("ignore")
+            try:
+                c, ops, nts = M.build_pyrates(mdl, style=case.get("style"))
+                for path, val in mdl.get("post_values", {}).items():
+                    c.update_var(node_vars={path: float(F(val))})
+                kw = dict(simulation_time=float(F(rc["T"])), step_size=float(F(rc["dt"])), solver=rc.get("solver", "euler"),
+                          outputs=rc["outputs"], vectorize=rc.get("vectorize", True), float_precision="float64", verbose=False,
+                          in_place=case.get("in_place", True), clear=True)
+                if rc.get("dts") is not None:
+                    kw["sampling_step_size"] = float(F(rc["dts"]))
+                if rc.get("cutoff") is not None:
+                    kw["cutoff"] = float(F(rc["cutoff"]))
+                if rc.get("backend"):
+                    kw["backend"] = rc["backend"]
+                if rc.get("inputs"):
+                    kw["inputs"] = {k: np.array([[float(F(x)) for x in row] for row in v]) if v and isinstance(v[0], list)
+                                    else np.array([float(F(x)) for x in v]) for k, v in rc["inputs"].items()}
+                    if rc.get("inputs_col_vector"):
+                        kw["inputs"] = {k: (a.reshape(-1, 1) if a.ndim == 1 else a) for k, a in kw["inputs"].items()}
+                import warnings as _w
+                with _w.catch_warnings(record=True) as wl:
+                    _w.simplefilter("always")
+                    res = c.run(**kw)
+                warns = sorted({type(w.message).__name__ for w in wl if "PyRates" in type(w.message).__name__})
+            except Exception as e:
+                return {"error": type(e).__name__, "msg": str(e)[:300]}
+            cols = []
+            for j, col in enumerate(res.columns):
+                label = [str(x) for x in col] if isinstance(col, tuple) else str(col)
+                cols.append([label, [C.f2s(x) for x in res.values[:, j]]])
+            return {"index": [C.f2s(t) for t in res.index.values], "cols": cols, "warnings": warns}
+
+
+def oracle_traj(case):
+    """Euler/Heun iterates of the specification's vector field from the declared initial values -> {"rows":[{path:q}], "bits":..} | {"error"}"""
+    flat = M.flatten(case["mdl"])
+    rc = case["run"]
+    dt = F(rc["dt"])
+    steps = round(F(rc["T"]) / dt)
+    sp = M.state_paths(flat)
+    init = {}
+    for n in flat["nodes"]:
+        for o in n["ops"]:
+            for d in o["vars"]:
+                init[f"{n['path']}/{o['name']}/{d['name']}"] = F(d["value"])
+    sigma = {p: init[p] for p in sp}
+    ext = case.get("ext_inputs") or []     # [{"tgt": path, "samples": [q..]}] already resolved to single target variables
+    interp = case.get("interp") or {}
+    rows, mb = [], 0
+
+    def field(sig, k):
+        fl = flat
+        if ext:
+            fl = json.loads(json.dumps(flat))
+            # an extrinsic input is one more source of the input variable
+            for i, x in enumerate(ext):
+                n, o, v = x["tgt"].rsplit("/", 2)
+                fl["nodes"].append({"path": f"__ext{i}", "ops": [{"name": "e", "output": "u", "vars": [{"name": "u", "decl": "other", "value": str(F(x["samples"][k]) if k < len(x["samples"]) else 0)}], "eqs": []}]})
+                fl["edges"].append({"src": [f"__ext{i}", "e", "u"], "tgt": [n, o, v], "w": "1"})
+        vals, dy = M.oracle_eval(fl, sig, interp)
+        return dy
+    try:
+        for k in range(steps):
+            rows.append({p: C.q2s(v) for p, v in sigma.items()})
+            k1 = field(sigma, k)
+            if rc.get("solver", "euler") == "euler":
+                sigma = {p: sigma[p] + dt * k1[p] for p in sp}
+            else:
+                s1 = {p: sigma[p] + dt * k1[p] for p in sp}
+                k2 = field(s1, k)
+                sigma = {p: sigma[p] + dt / 2 * (k1[p] + k2[p]) for p in sp}
+            mb = max([mb] + [bits(v) for v in sigma.values()] + [bits(v) for v in k1.values()])
+    except (ValueError, RecursionError) as e:
+        return {"error": str(e)[:60]}
+    return {"rows": rows, "bits": mb, "flat": flat, "steps": steps}
+
+
+def model_traj_request(case, flat):
+    rc = case["run"]
+    init = {}
+    for n in flat["nodes"]:
+        for o in n["ops"]:
+            for d in o["vars"]:
+                init[f"{n['path']}/{o['name']}/{d['name']}"] = d["value"]
+    inputs = []
+    for x in case.get("ext_inputs") or []:
+        n, o, v = x["tgt"].rsplit("/", 2)
+        inputs.append({"tgt": [n, o, v], "samples": x["samples"]})
+    return dict(comp="nettraj", fuel=60, dt=rc["dt"], steps=round(F(rc["T"]) / F(rc["dt"])), heun=rc.get("solver", "euler") == "heun",
+                init=init, interp=case.get("interp") or {}, inputs=inputs, **flat)
